@@ -74,6 +74,9 @@ def main(argv):
                             keys.append(("route%d" % rng.randrange(5), "pk%d" % i))
                         else:
                             keys.append("k-%d-%d" % (rep, i))
+                    if n >= 2:
+                        # short plain keys: a two-character key is a key, not a (server_key, key) pair
+                        keys += ["ab", b"cd", "x" + "abcdefgh"[rep % 8], b"q", "zz%d" % (rep % 10)][: 2 + rep % 4]
                     if n >= 2 and rng.random() < .7:
                         # the same inner key under several routings, and also as a plain key
                         base_k = "shared%d" % rep
